@@ -373,6 +373,85 @@ pub fn run_repair(p: &Program, j: usize, who: u8, reference: &[BddNode]) -> Vec<
     out
 }
 
+/// A mirror is a store: after it has taken over the producer's nodes (with the poll for handle `h` issued BEFORE the
+/// messages are delivered, so that the awaited handle arrives during the call, and a final drain) and after the repair
+/// step has rebuilt its bookkeeping, repeating the producer's program ON THE MIRROR must return the producer's handles
+/// and must not create a single node - otherwise the mirror holds a function under two handles (C06) and has stopped
+/// being a copy of the producer (C19). The unique table is audited through hook H1.
+pub fn mirror_reuse(p: &Program, h: usize, reference: &[BddNode]) -> Vec<(String, String)> {
+    let mut out = vec![];
+    let (s1, r1) = unbounded::<BddNode>();
+    let mut prod = mk_producer(s1);
+    let mut recv = mk_receiver(r1);
+    let mut handles = vec![];
+    for op in &p.ops {
+        handles.push(apply(&mut prod, op));
+    }
+    drop(prod);
+    let _ = recv.recv(Term(h));
+    let _ = recv.recv(Term(usize::MAX));
+    if recv.nodes[..] != reference[..] {
+        out.push(("receiver:final-table".into(), "after the producer finished and the channel was drained the node tables differ".into()));
+        return out;
+    }
+    recv.fix_import();
+    let fl = Flags { canonical: true, functions: false, memo: false, queries: false };
+    let mut o2 = vec![];
+    check_state(&recv, 3, &fl, &mut o2);
+    for (k, m) in o2 {
+        out.push((format!("mirror:{}", k), format!("{} (mirror after a poll for handle {}, a drain and the repair step)", m, h as i64)));
+    }
+    for (i, op) in p.ops.iter().enumerate() {
+        let got = apply(&mut recv, op);
+        if got != handles[i] {
+            out.push(("mirror:other-handle".into(), format!("operation #{} returns {:?} on the mirror and {:?} on the producer", i, got, handles[i])));
+        }
+    }
+    if recv.nodes[..] != reference[..] {
+        out.push(("mirror:duplicate-nodes".into(), format!("repeating the producer's program on the mirror grew its table from {} to {} nodes", reference.len(), recv.nodes.len())));
+    }
+    out
+}
+
+/// the family over all producer programs and all awaited handles (shared by C19 and C06)
+pub fn mirror_reuse_family(run: &Run) {
+    let mut progs = pinned();
+    progs.extend(programs(3));
+    let refs: Vec<Vec<BddNode>> = progs
+        .iter()
+        .map(|p| {
+            let mut b = Bdd::new();
+            run_program(&mut b, p);
+            b.nodes.clone()
+        })
+        .collect();
+    let res = run.par_family(
+        &format!("{} producer programs x every awaited handle: the drained and repaired mirror used as a store (the program repeated on it)", progs.len()),
+        progs.len() as u64,
+        || 0u64,
+        |st, k| {
+            let p = &progs[k as usize];
+            let reference = &refs[k as usize];
+            for h in (2..reference.len() + 1).chain([usize::MAX]) {
+                *st += 1;
+                let case = json!({"type": "mirror-reuse", "program": prog_json(p), "handle": h});
+                match guard(|| mirror_reuse(p, h, reference)) {
+                    Err(m) => run.violation("mirror:panic", m, case),
+                    Ok(found) => {
+                        for (kind, msg) in found {
+                            run.violation(&kind, format!("{} (program {})", msg, prog_json(p)), case.clone());
+                        }
+                    }
+                }
+            }
+        },
+        &|k| json!({"type": "mirror-reuse", "program": prog_json(&progs[k as usize]), "handle": 2}),
+    );
+    for st in res {
+        run.add_counts(0, st, st, st);
+    }
+}
+
 /// a long stream (more than 2^16 messages): polls at cut points around 65535 / 65536 and at both ends, single receiver
 /// and relay chain
 pub fn big_stream_case(pairs: usize) -> Vec<(String, String)> {
@@ -749,6 +828,7 @@ pub fn run_c19(run: &Run) {
     for st in res {
         run.add_counts(0, st, st, st);
     }
+    mirror_reuse_family(run);
     // the repair step on connected stores
     let res = run.par_family(
         &format!("{} producer programs x the repair step (fix_import) on the producer / the receiver / the relay at every operation boundary", progs.len()),
@@ -830,6 +910,13 @@ pub fn run_c19(run: &Run) {
 }
 
 pub fn replay(c: &Value) -> Vec<(String, String)> {
+    if c["type"] == "mirror-reuse" {
+        let p = Program { ops: c["program"].as_array().map(|a| a.iter().filter_map(op_from_json).collect()).unwrap_or_default() };
+        let mut b = Bdd::new();
+        run_program(&mut b, &p);
+        let reference = b.nodes.clone();
+        return guard(|| mirror_reuse(&p, c["handle"].as_u64().unwrap_or(2) as usize, &reference)).unwrap_or_else(|m| vec![("mirror:panic".into(), m)]);
+    }
     if c["type"] == "repair" {
         let p = Program { ops: c["program"].as_array().map(|a| a.iter().filter_map(op_from_json).collect()).unwrap_or_default() };
         let mut b = Bdd::new();
